@@ -34,6 +34,15 @@ def mk_graph(n, edges, history=None):
     return g
 
 
+def orient(edges, how):
+    """the same undirected (multi)graph with its edges stored in another direction: 'rev' all (v,u), 'alt' every second one"""
+    if how == "rev":
+        return [(v, u) for (u, v) in edges]
+    if how == "alt":
+        return [(v, u) if k % 2 else (u, v) for k, (u, v) in enumerate(edges)]
+    return list(edges)
+
+
 def bool_items(s, n, mode):
     if mode == "vars":
         return [s.bool_var() for _ in range(n)]
